@@ -6,7 +6,7 @@ EXTENDS Ast, TLC, Json
 Carriers == {"var", "param", "result", "elem"}
 Types == {"int", "str", "list"}
 Uses == {"eqnil", "nenil", "get", "or", "orlit", "unwrap_if", "unwrap_stmt", "unwrap_print",
-         "unwrap_while", "eqval", "getuse", "orchain", "unwrap_nested", "unwrap_twice"}
+         "unwrap_while", "eqval", "getuse", "orchain", "unwrap_nested", "unwrap_twice", "unwrap_nested_twice"}
 Positions == {"stmt", "inif", "inwhile", "infn"}
 
 (* excluded: an int captured by a function literal is refused as a list index by the type   *)
@@ -55,6 +55,15 @@ UseStmts(s) ==
       \* the target is declared outside the block in which `?=` runs
       [] s.use = "unwrap_nested" -> <<DeclW(s), If(Bin("==", V("one"), I(1)), <<Let("ok", UnwrapInto("w", E(s))), Print(V("ok"))>>),
                                       Print(Bin("==", V("w"), Nil))>>
+      \* the target holds a present value and is overwritten from inside a block (if / else-if condition and body):
+      \* the store must reach the variable of the enclosing frame whether the new value is nil or not
+      [] s.use = "unwrap_nested_twice" ->
+           <<DeclW(s), Let("ok", UnwrapInto("w", Val2(s.ty))), Print(Bin("==", V("w"), Nil)),
+             If(Bin("==", V("one"), I(1)), <<Let("ok2", UnwrapInto("w", E(s))), Print(V("ok2")), Print(Bin("==", V("w"), Nil))>>),
+             Print(Bin("==", V("w"), Nil)),
+             Let("ok3", UnwrapInto("w", Val2(s.ty))),
+             IfElif(Bin("==", V("one"), I(2)), <<Print(S("no"))>>, IfElse(UnwrapInto("w", E(s)), <<Print(S("some"))>>, <<Print(S("none"))>>)),
+             Print(Bin("==", V("w"), Nil))>>
       \* a present value followed by nil: the second ?= must overwrite the first
       [] s.use = "unwrap_twice" -> <<DeclW(s), Let("ok", UnwrapInto("w", Val2(s.ty))), Print(Bin("==", V("w"), Nil)),
                                      Let("ok2", UnwrapInto("w", E(s))), Print(V("ok2")), Print(Bin("==", V("w"), Nil))>>
